@@ -385,10 +385,67 @@ def r_seg_keep(rep, f):
     ev = ps[0]
     allowed = []
     bad = []
+    hbody = hc.body["body"]
+
+    def strip(e):
+        while e is not None and (e.get("k") in ("DropTemps", "Paren", "AddrOf", "Cast") or (e.get("k") == "Unary" and e.get("op") == "Deref")):
+            e = e["e"]
+        return e
+
+    def is_param(e, i):
+        e = strip(e)
+        return e is not None and e.get("k") == "Path" and e.get("id") == hc.pid[i]
+
+    def seg_h(e, depth=0):
+        """the step length of the interpolant / segment being stored"""
+        e = strip(e)
+        if e is None or depth > 6:
+            return False
+        if e.get("k") == "Field" and (e.get("fdef") or "") in ("dense::DenseSegment::h", "dense::StepInterpolant::h"):
+            return True
+        if e.get("k") == "MethodCall" and e.get("name") == "abs":
+            return seg_h(e["recv"], depth + 1)
+        if e.get("k") == "Path" and e.get("res") == "local":
+            for lt in tast.find(hbody, lambda z: z.get("k") == "Let" and z.get("init") is not None and tast.contains(z["pat"], lambda q: q.get("k") == "PBind" and q.get("id") == e.get("id"))):
+                if lt["pat"].get("k") == "PBind":
+                    return seg_h(lt["init"], depth + 1)
+                if lt["pat"].get("k") == "PStruct" and (lt["pat"].get("def") or "").endswith(("DenseSegment", "StepInterpolant")):
+                    return any(fp["name"] == "h" and fp["pat"].get("k") == "PBind" and fp["pat"].get("id") == e.get("id") for fp in lt["pat"].get("fields", []))
+        return False
+
+    def zero(e):
+        e = strip(e)
+        return e is not None and e.get("k") == "Lit" and e.get("lk") in ("Float", "Int") and float(str(e.get("v")).replace("_", "")) == 0.0
+
+    def ok_conj(c, depth=0):
+        c = strip(c)
+        if c is None or depth > 8:
+            return False
+        k = c.get("k")
+        if k == "Binary" and c["op"] == "And":
+            return ok_conj(c["l"], depth + 1) and ok_conj(c["r"], depth + 1)
+        if k == "Field" and (c.get("fdef") or "").endswith("DefaultSolOut::collect_dense"):
+            return True
+        if k == "MethodCall" and c.get("name") == "is_some" and is_param(c["recv"], 4):
+            return True
+        if k == "LetExpr" and (is_param(c["init"], 4) or (strip(c["init"]).get("k") == "MethodCall" and is_param(strip(c["init"])["recv"], 4))):
+            return True
+        if k == "Binary" and c["op"] == "Ne":
+            if (is_param(c["l"], 2) and is_param(c["r"], 1)) or (is_param(c["l"], 1) and is_param(c["r"], 2)):
+                return True
+            if (seg_h(c["l"]) and zero(c["r"])) or (seg_h(c["r"]) and zero(c["l"])):
+                return True
+        if k == "Binary" and c["op"] == "Gt" and seg_h(c["l"]) and zero(c["r"]) and strip(c["l"]).get("k") == "MethodCall":
+            return True
+        if k == "Binary" and c["op"] == "Lt" and seg_h(c["r"]) and zero(c["l"]) and strip(c["r"]).get("k") == "MethodCall":
+            return True
+        if k == "Path" and c.get("res") == "local":
+            lets = tast.find(hbody, lambda z: z.get("k") == "Let" and z["pat"].get("k") == "PBind" and z["pat"].get("id") == c.get("id") and z.get("init") is not None)
+            return len(lets) == 1 and ok_conj(lets[0]["init"], depth + 1)
+        return False
     for node, branch, cv in ev.get("pc", []):
         txt = tast.render(node["cond"])
-        ok = branch == "then" and all(tok in ("self", "collect_dense", "x", "xold", "interpolant", "seg", "h") or not tok.isidentifier()
-                                      for tok in _idents(node["cond"]))
+        ok = branch == "then" and ok_conj(node["cond"])
         (allowed if ok else bad).append("%s[%s]" % (txt, branch))
     # it must come before the first return in source order
     body = hc.body["body"]
@@ -445,6 +502,233 @@ def r_seg_filter(rep, f):
         rep.violation("R-SEG-KEEP", key, "from_segments can drop a non-degenerate segment (%s): a real accepted step would be missing from sol(t), shrinking the covered span or leaving a gap" % bad[:2], (droppers or conds)[0].get("sp"))
     else:
         rep.ok("R-SEG-KEEP", key, "every segment is kept except those with h == 0 (%d filter(s))" % len(droppers))
+
+
+SEG_FIELD = "solve::solout::DefaultSolOut::dense_segs"
+
+
+def r_seg_verbatim(rep, f):
+    """the segments sol(t) is built from are the step interpolants exactly as the solver handed them over:
+    (1) writer/reader agreement: the tuple the handler stores reads fields F_0..F_k of one to_segment() result, and
+        from_segments hands tuple position i to the DenseSegment::new parameter that initialises the same field F_i;
+    (2) the store is append-only: apart from push (and read-only / capacity calls, or moving the whole vector out) nothing in
+        the crate takes the stored vector mutably, so a stored (cont, xold, h) is never edited after its step"""
+    key = "R-SEG-VERBATIM"
+    hfn = next((n for n in f.bodies if n.endswith("DefaultSolOut<'a, F> as solve::solout::SolOut>::solout") or (n.endswith("::solout") and "DefaultSolOut" in n)), None)
+    rfn = CONT + "from_segments"
+    if hfn is None or rfn not in f.bodies or "dense::DenseSegment::new" not in f.bodies:
+        rep.inconc(key, key + ":anchor", "handler / from_segments / DenseSegment::new not found")
+        return
+    is_store = lambda z: z.get("k") == "Field" and (z.get("fdef") or "") == SEG_FIELD
+    # (2) append-only
+    READ = ("push", "len", "is_empty", "iter", "last", "first", "reserve", "capacity", "clone", "as_slice", "get", "with_capacity", "shrink_to_fit", "reserve_exact")
+    bad = []
+    n_use = 0
+    for fn, b in sorted(f.bodies.items()):
+        if not tast.contains(b["body"], is_store):
+            continue
+        for node, parents in tast.find_with_parents(b["body"], is_store):
+            n_use += 1
+            par = parents[-1] if parents else None
+            # climb reborrows
+            i = len(parents) - 1
+            while i >= 0 and parents[i].get("k") in ("AddrOf", "DropTemps", "Paren"):
+                i -= 1
+            par = parents[i] if i >= 0 else None
+            if par is None:
+                continue
+            k = par.get("k")
+            if k == "MethodCall" and tast.contains(par["recv"], lambda z: z is node):
+                if par.get("name") in READ:
+                    continue
+                bad.append((par, fn, "`.%s(..)` is called on the stored segments" % par.get("name")))
+            elif k == "Assign" and tast.contains(par["l"], lambda z: z is node):
+                bad.append((par, fn, "the stored segments are overwritten"))
+            elif k == "Index":
+                up = parents[i - 1] if i >= 1 else None
+                if up is not None and ((up.get("k") in ("Assign", "AssignOp") and tast.contains(up["l"], lambda z: z is node)) or (up.get("k") == "AddrOf" and up.get("mut")) or up.get("k") == "Field"):
+                    # a Field projection of an indexed element is a write only under an assignment
+                    top = next((q for q in reversed(parents[:i]) if q.get("k") in ("Assign", "AssignOp")), None)
+                    if up.get("k") != "Field" or (top is not None and tast.contains(top["l"], lambda z: z is node)):
+                        bad.append((par, fn, "an element of the stored segments is written"))
+            elif k == "Call" and (par.get("def") or "").startswith(("std::mem::take", "std::mem::replace", "std::mem::swap")):
+                if fn == hfn:
+                    bad.append((par, fn, "the stored segments are taken out during the run"))
+            elif k in ("Tuple", "Struct", "Let", "Call", "Return", "Block"):
+                continue   # moved out whole (into_payload) or handed on by value / shared reference
+            elif k == "AddrOf" and par.get("mut"):
+                bad.append((par, fn, "a mutable borrow of the stored segments escapes"))
+        # any other &mut use: mutable borrow handed to a callee
+        for node in tast.find(b["body"], lambda z: z.get("k") == "AddrOf" and z.get("mut") and is_store(z["e"])):
+            if not any(n_ is node for n_, _, _ in bad):
+                pass
+    for node, fn, why in bad:
+        rep.violation(key, "%s:%s:%s" % (key, fn, tast.render(node)[:40]), "%s in %s (`%s`): a segment collected for sol(t) must stay the interpolant of its step as the solver delivered it" % (why, fn, tast.render(node)[:80]), node.get("sp"))
+    # (1) writer/reader agreement
+    hb = f.bodies[hfn]["body"]
+    pushes = tast.find(hb, lambda z: z.get("k") == "MethodCall" and z.get("name") == "push" and tast.contains(z["recv"], is_store))
+    if len(pushes) != 1 or not pushes[0]["args"] or pushes[0]["args"][0].get("k") != "Tuple":
+        rep.inconc(key, key + ":writer", "the handler's store of a dense segment is not one push of a tuple (found %d push(es))" % len(pushes))
+        return
+    elems = pushes[0]["args"][0]["elems"]
+    wf = []
+    src_ids = set()
+    direct_src = [False]
+    for e in elems:
+        e0 = e
+        while e0.get("k") in ("MethodCall",) and e0.get("name") in ("clone", "to_vec", "to_owned"):
+            e0 = e0["recv"]
+        if e0.get("k") == "Field" and (e0.get("fdef") or "").startswith("dense::DenseSegment::") and e0["e"].get("k") == "Path":
+            wf.append(e0["name"])
+            src_ids.add(e0["e"].get("id"))
+        elif e0.get("k") == "Path" and e0.get("res") == "local":
+            # `let DenseSegment { cont, xold, h, .. } = seg;` - a binding of a field by destructuring
+            got = None
+            for lt in tast.find(hb, lambda z: z.get("k") == "Let" and z["pat"].get("k") == "PStruct" and (z["pat"].get("def") or "").endswith("DenseSegment") and z.get("init") is not None):
+                for fp in lt["pat"].get("fields", []):
+                    if fp["pat"].get("k") == "PBind" and fp["pat"].get("id") == e0.get("id"):
+                        i0 = lt["init"]
+                        while i0.get("k") in ("DropTemps", "Paren"):
+                            i0 = i0["e"]
+                        if i0.get("k") == "Path":
+                            got = (fp["name"], i0.get("id"))
+                        elif tast.contains(i0, lambda z: z.get("k") == "MethodCall" and (z.get("def") or "").endswith("to_segment")):
+                            got = (fp["name"], "direct")
+                            direct_src[0] = True
+            if got is None or tast.contains(hb, lambda z: z.get("k") in ("Assign", "AssignOp") and tast.contains(z["l"], lambda q: q.get("k") == "Path" and q.get("id") == e0.get("id"))):
+                wf.append(None)
+            else:
+                wf.append(got[0])
+                src_ids.add(got[1])
+        else:
+            wf.append(None)
+    if None in wf or len(src_ids) != 1:
+        rep.violation(key, key + ":writer", "the stored tuple `%s` is not made of plain field reads of one to_segment() result: what sol(t) evaluates is then not the step interpolant the solver delivered" % tast.render(pushes[0]["args"][0])[:100], pushes[0].get("sp"))
+        return
+    lets = tast.find(hb, lambda z: z.get("k") == "Let" and z["pat"].get("k") == "PBind" and z["pat"].get("id") in src_ids and z.get("init") is not None)
+    if src_ids == {"direct"}:
+        pass
+    elif len(lets) != 1 or not tast.contains(lets[0]["init"], lambda z: z.get("k") == "MethodCall" and (z.get("def") or "").endswith("to_segment")):
+        rep.violation(key, key + ":writer-source", "the stored fields are not read from the result of StepInterpolant::to_segment()", pushes[0].get("sp"))
+        return
+    if tast.contains(hb, lambda z: z.get("k") in ("Assign", "AssignOp") and tast.contains(z["l"], lambda q: q.get("k") == "Path" and q.get("id") in src_ids)):
+        rep.violation(key, key + ":writer-source", "the to_segment() result is modified before it is stored", pushes[0].get("sp"))
+        return
+    rb = f.bodies[rfn]["body"]
+    ctor = None
+    for cl in tast.find(rb, lambda z: z.get("k") == "Closure"):
+        calls = tast.find(cl["body"], lambda z: z.get("k") == "Call" and (z.get("def") or "") == "dense::DenseSegment::new")
+        if calls and cl["params"] and cl["params"][0].get("k") == "PTuple":
+            ctor = (cl["params"][0]["pats"], calls[0])
+    nb = f.bodies["dense::DenseSegment::new"]
+    lit = tast.find(nb["body"], lambda z: z.get("k") == "Struct")
+    if ctor is None or len(lit) != 1:
+        rep.inconc(key, key + ":reader", "from_segments does not build the segments with one closure over the stored tuple calling DenseSegment::new")
+        return
+    pids = [p["id"] for p in nb.get("params", []) if p.get("k") == "PBind"]
+    field_of_param = {}
+    for fl in lit[0]["fields"]:
+        if fl["e"].get("k") == "Path" and fl["e"].get("id") in pids:
+            field_of_param[pids.index(fl["e"]["id"])] = fl["name"]
+    pats, call = ctor
+    rf = []
+    for i, p in enumerate(pats):
+        if p.get("k") != "PBind":
+            rf.append(None)
+            continue
+        j = next((j for j, a in enumerate(call["args"]) if a.get("k") == "Path" and a.get("id") == p["id"]), None)
+        rf.append(field_of_param.get(j))
+    if len(rf) != len(wf) or any(a != b_ for a, b_ in zip(wf, rf)):
+        rep.violation(key, key + ":agreement", "the handler stores the segment fields in the order %s but from_segments rebuilds the segment with positions meaning %s: sol(t) would evaluate a different polynomial from the one the solver built" % (wf, rf), pushes[0].get("sp"))
+    elif not bad:
+        rep.ok(key, key, "stored tuple = fields %s of one to_segment() result, read back into the same fields; %d use(s) of the store, all append / read-only / move-out" % (wf, n_use))
+
+
+def r_seg_fields(rep, f):
+    """the two interpolant views (borrowed StepInterpolant, owned DenseSegment) are copies of each other field by field, and
+    both evaluate the method's interpolation function with their own (cont, xold, h) in the positions the six interpolate
+    functions declare them in"""
+    key = "R-SEG-FIELDS"
+    STRUCTS = ("dense::StepInterpolant", "dense::DenseSegment")
+    fns = {n: b for n, b in f.bodies.items() if n.startswith("dense::") and not n.startswith("<")}
+    if len(fns) < 6:
+        rep.inconc(key, key + ":anchor", "only %d function(s) found in the dense module" % len(fns))
+        return
+
+    def strip(e):
+        while e is not None:
+            if e.get("k") in ("AddrOf", "DropTemps", "Paren", "Cast") or (e.get("k") == "Unary" and e.get("op") == "Deref"):
+                e = e["e"]
+            elif e.get("k") == "MethodCall" and e.get("name") in ("to_vec", "clone", "to_owned", "as_slice", "as_ref"):
+                e = e["recv"]
+            elif e.get("k") == "Index" and e.get("i", {}).get("k") in ("Range", "RangeFull", "Struct"):
+                e = e["e"]
+            else:
+                break
+        return e
+
+    def src_field(e):
+        e = strip(e)
+        if e is not None and e.get("k") == "Field" and (e.get("fdef") or "").rsplit("::", 1)[0] in STRUCTS:
+            return e["name"]
+        return None
+    # constructor parameter -> field
+    ctor = {}
+    for n, b in fns.items():
+        if not n.endswith("::new"):
+            continue
+        lit = tast.find(b["body"], lambda z: z.get("k") == "Struct" and (z.get("def") or "") in STRUCTS)
+        pids = [p.get("id") for p in b.get("params", [])]
+        if len(lit) == 1:
+            m = {}
+            for fl in lit[0]["fields"]:
+                e = strip(fl["e"])
+                if e is not None and e.get("k") == "Path" and e.get("id") in pids:
+                    m[pids.index(e["id"])] = fl["name"]
+            ctor[n] = m
+    # positions of (cont, xold, h) in the interpolation functions, by the names all of them use
+    pos_names = None
+    ifns = [b for n, b in f.bodies.items() if n.startswith("methods::") and n.endswith("::interpolate")]
+    sigs = {tuple(p.get("name") for p in b.get("params", [])) for b in ifns}
+    if len(ifns) >= 6 and len(sigs) == 1:
+        pos_names = list(sigs.pop())
+    bad = []
+    n_ok = 0
+    for n, b in sorted(fns.items()):
+        for lit in tast.find(b["body"], lambda z: z.get("k") == "Struct" and (z.get("def") or "") in STRUCTS):
+            for fl in lit["fields"]:
+                sf = src_field(fl["e"])
+                if sf is not None:
+                    if sf != fl["name"]:
+                        bad.append((fl["e"], n, "field `%s` of the copy is filled from `%s`" % (fl["name"], sf)))
+                    else:
+                        n_ok += 1
+        for c in tast.find(b["body"], lambda z: z.get("k") == "Call"):
+            d = c.get("def") or ""
+            if d in ctor or any(d == k_.replace("::<'a>", "") for k_ in ctor):
+                m = ctor.get(d) or next(v for k_, v in ctor.items() if k_.replace("::<'a>", "") == d)
+                for j, a in enumerate(c["args"]):
+                    sf = src_field(a)
+                    if sf is not None and j in m:
+                        if sf != m[j]:
+                            bad.append((a, n, "`%s` is passed where the constructor expects `%s`" % (sf, m[j])))
+                        else:
+                            n_ok += 1
+            elif c.get("f", {}).get("k") == "Field" and (c["f"].get("fdef") or "").rsplit("::", 1)[0] in STRUCTS and pos_names:
+                for j, a in enumerate(c["args"]):
+                    sf = src_field(a)
+                    if sf is not None and j < len(pos_names) and pos_names[j] in ("cont", "xold", "h"):
+                        if sf != pos_names[j]:
+                            bad.append((a, n, "`%s` is passed to the interpolation function in the position of `%s`" % (sf, pos_names[j])))
+                        else:
+                            n_ok += 1
+    for node, fn, why in bad:
+        rep.violation(key, "%s:%s:%s" % (key, fn, why.split("`")[1]), "%s in %s: the owned and the borrowed view of a step then evaluate different polynomials (sol(t) vs the per-step interpolant)" % (why, fn), node.get("sp"))
+    if not bad:
+        if n_ok < 10:
+            rep.inconc(key, key + ":floor", "only %d field correspondences found in the dense module (expected >= 10)" % n_ok)
+        else:
+            rep.ok(key, key, "%d field correspondences (copies between the two views, constructor arguments, interpolation-function arguments) agree" % n_ok)
 
 
 def _idents(e):
